@@ -127,6 +127,8 @@ class TRSpec(object):
     # ------------------------------------------------------------ rely (what user code may do to the recorder meanwhile)
     def rely(self, st):
         selfv = self.selfv
+        if getattr(self, 'quiet_rely', False):
+            return z3.BoolVal(False)          # unit about the wrapper's OWN effects: the user code is taken to leave the recorder alone
         old = {f: st.rd(selfv, f) for f in SELF_F}; new = {f: fresh('rely' + f) for f in SELF_F}
         pb = st.rd(selfv, '_playback_recording')
         for f in SELF_F:
@@ -174,8 +176,11 @@ class TRSpec(object):
     def do_role(self, ex, st, role, f, pos, kw, star, dstar, ordinary_only=False, ret=None):
         """UserBody / UserHook call: returns anything or raises anything; shared state changes only by the rely"""
         outs = []
+        tl_ = st.rd(self.selfv, '_thread_locals') if self.selfv is not None else None
         rec = dict(kind=role.kind, name=role.name, pos=list(pos), kw=dict(kw), star=star, dstar=dstar,
-                   star_seq=(st.seq(star) if star is not None else None), dstar_c=(st.dcontents(dstar) if dstar is not None else None))
+                   star_seq=(st.seq(star) if star is not None else None), dstar_c=(st.dcontents(dstar) if dstar is not None else None),
+                   in_interception=(z3.And(Val.bv(st.rd(tl_, 'tlhas_currently_in_interception')), st.rd(tl_, 'tl_currently_in_interception') == B(True))
+                                    if tl_ is not None else None))
         s1 = st.copy(); d1 = self.rely(s1); v = fresh('ret_' + role.name)
         if ret is not None:
             s1.assume(ret(s1, v))
@@ -497,6 +502,6 @@ class TRSpec(object):
                 for nm_ in ('DURATION', 'RECORDED_AT', 'OPERATION_CLASS', 'EXCEPTION_IN_OPERATION', 'INCOMPLETE_RECORDING'):
                     s2.assume(z3.Not(added[S(CONSTS[nm_])]))
                 orf = z3.Or(z3.Bool('x'), z3.Bool('y')).decl(); ite = z3.If(z3.Bool('x'), fresh('u'), fresh('w')).decl()
-                s2.set_dcontents(md, z3.Map(orf, dom_, added), z3.Map(ite, added, uv, mp_))
+                s2.set_dcontents(md, z3.Map(orf, dom_, added), z3.Map(ite, added, uv, mp_)); s2.g['post_added'] = added
                 outs.append(finish(s2))
         return outs
